@@ -59,7 +59,7 @@ CHECKS = {
         note="Trusted: reference reader; respelling generator."),
     "C14": dict(engine="E5-environment", design="§2 E5, §3 C14",
         technique="fresh-interpreter enumeration of hash seeds; explicit-state BFS over call histories to a fixpoint of the canonical module state; stateless exploration of thread schedules with iterative context bounding under a cooperative scheduler (sys.monitoring)",
-        text="250-item workload identical under 16 (thorough 256+8 random) hash seeds; BFS over 23 public calls (failing parses, rejected molfiles, reads whose results are scribbled on, calls on a retained graph object) to a fixpoint of the canonical module state (128 + 24 states) with every transition's result equal to a fresh process, plus the unmerged history tree; all schedules with <=1 preemption on 8 two-thread harnesses (incl. one starting from freshly imported modules) and <=2 preemptions on 3 short harnesses at line granularity, <=1 preemption on 3 harnesses at bytecode-instruction granularity (thorough: 2 more at bound 2, 3 threads at bound 1, the 3 instruction-level harnesses at bound 2) give the sequential results, terminate, leave the interpreter settings untouched and a module state on which a probe workload still agrees.",
+        text="250-item workload identical under 16 (thorough 256+8 random) hash seeds; BFS over 23 public calls (failing parses, rejected molfiles, reads whose results are scribbled on, calls on a retained graph object) to a fixpoint of the canonical module state (128 + 24 states) with every transition's result equal to a fresh process, plus the unmerged history tree; all schedules with <=1 preemption on 8 two-thread harnesses (incl. one starting from freshly imported modules) and <=2 preemptions on 3 short harnesses at line granularity, <=1 preemption on 3 harnesses at bytecode-instruction granularity (thorough: 2 more at bound 2, 3 threads at bound 1, the instruction-level serialize||serialize harness at bound 2) give the sequential results, terminate, leave the interpreter settings untouched and a module state on which a probe workload still agrees.",
         note="Line-granularity interleavings of instrumented code (all tucan functions + ANTLR lexer cache functions); GIL; private equal-valued inputs per thread."),
     "C15": dict(engine="E4-sizes", design="§2 E4, §3 C15",
         technique="exhaustive size ladder (every n up to N_small for 13 families) plus large sizes chosen from the measured frame-depth curve",
